@@ -1,0 +1,41 @@
+// Copyright 2026 Juan Pablo Tosso and the OWASP Coraza contributors
+// SPDX-License-Identifier: Apache-2.0
+
+//go:build !verif
+
+// Package verifhook provides observation and fault-injection hooks used by
+// external runtime-verification tooling. Without the "verif" build tag every
+// function here is an empty, inlinable stub.
+package verifhook
+
+// Enabled reports whether the hooks are compiled in.
+const Enabled = false
+
+// EventKind identifies a hook event.
+type EventKind int
+
+const (
+	PhaseBegin EventKind = iota
+	PhaseEnd
+	RuleEval
+	TCacheHit
+	TCachePrefixHit
+	TCacheMiss
+	PoolGet
+	PoolPut
+	MemoHit
+	MemoMiss
+	MemoRelease
+)
+
+// Event reports an event to the installed sink (no-op).
+func Event(EventKind, any, int, int) {}
+
+// Fault returns an injected error for the named failpoint (always nil).
+func Fault(string) error { return nil }
+
+// FaultOr returns the injected error for the named failpoint, or err.
+func FaultOr(_ string, err error) error { return err }
+
+// Yield is a scheduling perturbation point (no-op).
+func Yield(string) {}
